@@ -140,6 +140,25 @@ def _tailify(stmts, make_result):
     return out
 
 
+def _is_path_expr(v: ast.AST, _depth: int = 0) -> bool:
+    """A pure access path: name, constant, attribute chain, subscript by a
+    constant / name / path (``job_nodes[-1]``, ``self.graph.nodes[i]``,
+    ``EdgeType.CONJUNCTIVE``).  Substituting such an argument for the parameter
+    of an inlined helper reads the same objects the call would have passed."""
+    if _depth > 4:
+        return False
+    if isinstance(v, (ast.Name, ast.Constant)):
+        return True
+    if isinstance(v, ast.Attribute):
+        return _is_path_expr(v.value, _depth + 1)
+    if isinstance(v, ast.Subscript):
+        i = v.slice
+        idx_ok = isinstance(i, (ast.Constant, ast.Name)) or (
+            isinstance(i, ast.UnaryOp) and isinstance(i.operand, ast.Constant)) or (isinstance(i, ast.Attribute) and _is_path_expr(i, _depth + 1))
+        return idx_ok and _is_path_expr(v.value, _depth + 1)
+    return False
+
+
 class Normalizer:
     def __init__(self, ctx):
         self.ctx = ctx
@@ -207,7 +226,7 @@ class Normalizer:
         mapping: dict[str, ast.AST | str] = {}
         prefix = []
         for p, v in args.items():
-            simple = isinstance(v, (ast.Name, ast.Constant)) or (isinstance(v, ast.Attribute) and isinstance(v.value, ast.Name))
+            simple = _is_path_expr(v)
             if p not in assigned and (simple or subst_all):
                 mapping[p] = v
             else:
@@ -290,8 +309,140 @@ class Normalizer:
         # but on the caller's receiver class
         return FuncInfo(t.qualname, t.name, t.node, t.module, fi.cls if t.cls is not None else None, t.parent, t.decorators)
 
+    def _desugar_comp(self, fi, st, banned):
+        """``x = [helper(args) for v in it]`` (also as return / annotated
+        assignment) with an inlinable private helper becomes the explicit
+        loop  ``x = []; for v in it: e = helper(args); x.append(e)`` so that
+        the helper can be inlined at statement level.  Returns the replacing
+        statements or None."""
+        value = getattr(st, "value", None)
+        if not isinstance(st, (ast.Assign, ast.AnnAssign, ast.Return)) or not isinstance(value, ast.ListComp):
+            return None
+        if not isinstance(value.elt, ast.Call) or self._inline_target(fi, value.elt, banned) is None:
+            return None
+        if isinstance(st, ast.Assign) and not (len(st.targets) == 1 and isinstance(st.targets[0], ast.Name)):
+            return None
+        if isinstance(st, ast.AnnAssign) and not isinstance(st.target, ast.Name):
+            return None
+        if any(g.is_async for g in value.generators):
+            return None
+        # comprehension variables become function-level names: refuse on a clash
+        caller = getattr(self, "_caller_names", set())
+        tnames = {x.id for g in value.generators for x in ast.walk(g.target) if isinstance(x, ast.Name)}
+        comp_inner = {x.id for x in ast.walk(value) if isinstance(x, ast.Name)}
+        outside = {
+            x.id for n in ast.walk(getattr(self, "_flat_root", st)) if n is not value and not any(n is y for y in ast.walk(value))
+            for x in [n] if isinstance(x, ast.Name)
+        }
+        if any(t != "_" and t in outside for t in tnames):
+            return None
+        del caller, comp_inner
+        _counter[0] += 1
+        k = _counter[0]
+        if isinstance(st, ast.Assign):
+            acc = st.targets[0].id
+        elif isinstance(st, ast.AnnAssign):
+            acc = st.target.id
+        else:
+            acc = f"_items__c{k}"
+        elem = f"_item__c{k}"
+        init: ast.stmt
+        if isinstance(st, ast.AnnAssign):
+            init = ast.AnnAssign(target=ast.Name(id=acc, ctx=ast.Store()), annotation=st.annotation, value=ast.List(elts=[], ctx=ast.Load()), simple=1)
+        else:
+            init = ast.Assign(targets=[ast.Name(id=acc, ctx=ast.Store())], value=ast.List(elts=[], ctx=ast.Load()))
+        inner: list[ast.stmt] = [
+            ast.Assign(targets=[ast.Name(id=elem, ctx=ast.Store())], value=value.elt),
+            ast.Expr(value=ast.Call(
+                func=ast.Attribute(value=ast.Name(id=acc, ctx=ast.Load()), attr="append", ctx=ast.Load()),
+                args=[ast.Name(id=elem, ctx=ast.Load())], keywords=[])),
+        ]
+        for g in reversed(value.generators):
+            body = inner
+            for cond in reversed(g.ifs):
+                body = [ast.If(test=cond, body=body, orelse=[])]
+            inner = [ast.For(target=g.target, iter=g.iter, body=body, orelse=[])]
+        out = [init] + inner
+        if isinstance(st, ast.Return):
+            out.append(ast.Return(value=ast.Name(id=acc, ctx=ast.Load())))
+        for x in out:
+            ast.copy_location(x, st)
+            ast.fix_missing_locations(x)
+        return out
+
+    def _hoist(self, fi, st, banned):
+        """Moves an inlinable helper call (or a list comprehension over one)
+        out of an argument position / a loop header into a temporary assigned
+        just before the statement, where statement-level inlining reaches it:
+            f(x, [h(v) for v in it])      ->  _t = [h(v) for v in it]; f(x, _t)
+            for i, v in enumerate(h(a)):  ->  _t = h(a); for i, v in enumerate(_t):
+        Only done when everything evaluated before the hoisted expression in
+        that statement is a pure access path, so evaluation order is kept."""
+        def inl_call(e):
+            return isinstance(e, ast.Call) and self._inline_target(fi, e, banned) is not None
+
+        def wanted(e):
+            return inl_call(e) or (isinstance(e, ast.ListComp) and inl_call(e.elt))
+
+        holder = None  # (container list / node, index / field)
+        if isinstance(st, ast.For):
+            it = st.iter
+            if wanted(it):
+                holder = (st, "iter")
+            elif isinstance(it, ast.Call) and isinstance(it.func, ast.Name) and it.func.id in ("enumerate", "zip", "reversed", "list", "sorted", "tuple") and it.args and wanted(it.args[0]):
+                holder = (it.args, 0)
+        else:
+            value = getattr(st, "value", None)
+            if isinstance(st, (ast.Expr, ast.Assign, ast.AnnAssign, ast.Return)) and isinstance(value, ast.Call) and not inl_call(value):
+                if not _is_path_expr(value.func):
+                    return None
+                for i, a in enumerate(value.args):
+                    if wanted(a):
+                        holder = (value.args, i)
+                        break
+                    if not _is_path_expr(a):
+                        break
+                else:
+                    for kw in value.keywords:
+                        if wanted(kw.value):
+                            holder = (kw, "value")
+                            break
+                        if not _is_path_expr(kw.value):
+                            break
+        if holder is None:
+            return None
+        _counter[0] += 1
+        tmp = f"_arg__h{_counter[0]}"
+        cont, key = holder
+        expr = cont[key] if isinstance(key, int) else getattr(cont, key)
+        asg = ast.Assign(targets=[ast.Name(id=tmp, ctx=ast.Store())], value=expr)
+        ref = ast.Name(id=tmp, ctx=ast.Load())
+        if isinstance(key, int):
+            cont[key] = ref
+        else:
+            setattr(cont, key, ref)
+        for x in (asg, ref):
+            ast.copy_location(x, st)
+        ast.fix_missing_locations(asg)
+        ast.fix_missing_locations(st)
+        return [asg, st]
+
     def _inline_block(self, fi, stmts, depth, banned, tail=True):
         out = []
+        if depth > 0:
+            for _round in range(3):
+                expanded = []
+                changed = False
+                for st in stmts:
+                    rep = self._desugar_comp(fi, st, banned)
+                    if rep is None:
+                        rep = self._hoist(fi, st, banned)
+                    if rep is not None:
+                        changed = True
+                    expanded += rep if rep is not None else [st]
+                stmts = expanded
+                if not changed:
+                    break
         for i, st in enumerate(stmts):
             is_tail = tail and i == len(stmts) - 1
             rep = self._inline_stmt(fi, st, depth, banned, is_tail) if depth > 0 else None
@@ -319,6 +470,7 @@ class Normalizer:
         if not isinstance(node, ast.Lambda):
             saved = getattr(self, "_caller_names", set())
             self._caller_names = {n.id for n in ast.walk(fi.node) if isinstance(n, ast.Name)} | set(fi.params)
+            self._flat_root = node
             try:
                 node.body = self._inline_block(fi, list(node.body), depth, {fi.qualname} | set(keep))
             finally:
@@ -362,6 +514,28 @@ class Normalizer:
                     return norm.xexpr(fi, v, depth - 1, _seen | {n.id})
                 # tuple unpacking from a tuple literal handled by Defs already
                 return n
+
+            def visit_Attribute(self, a: ast.Attribute):
+                # record field of a local built by a keyword constructor call:
+                #   size = _Size(num_jobs=J, num_machines=M) ... size.num_machines  ->  M
+                if isinstance(a.ctx, ast.Load) and isinstance(a.value, ast.Name) and depth > 0 and a.value.id not in _seen:
+                    ds = defs.of(a.value.id)
+                    if len(ds) == 1 and ds[0][0] == "value" and isinstance(ds[0][1], ast.Call) and a.value.id not in defs.params:
+                        call = ds[0][1]
+                        cls = norm.ctx.repo.classes.get(norm.ctx.repo.resolve(fi.module.name, ast.unparse(call.func)) or "")
+                        if cls is not None and not cls.methods.get("__init__"):
+                            fields = [
+                                st.target.id for st in cls.node.body
+                                if isinstance(st, ast.AnnAssign) and isinstance(st.target, ast.Name)
+                            ]
+                            if a.attr in fields:
+                                val = next((k.value for k in call.keywords if k.arg == a.attr), None)
+                                if val is None and fields.index(a.attr) < len(call.args):
+                                    val = call.args[fields.index(a.attr)]
+                                if val is not None:
+                                    return norm.xexpr(fi, val, depth - 1, _seen | {a.value.id})
+                self.generic_visit(a)
+                return a
 
             def visit_Call(self, c: ast.Call):
                 self.generic_visit(c)
